@@ -1,7 +1,7 @@
 (* C16 - generators: the index decoders used for skip sampling are bijections, the sampled
    indices are distinct and in range. *)
 From Coq Require Import List Arith Lia.
-From XV Require Import Base.Label Base.LSet Model.Decoders Proofs.Combs Proofs.DecoderProofs.
+From XV Require Import Base.Label Base.LSet Model.Decoders Proofs.Combs Proofs.DecoderProofs Proofs.SkipAll.
 Import ListNotations.
 
 (* _index_to_edge_comb(index, n, m) is the index-th m-combination of range(n) in lexicographic
@@ -65,3 +65,10 @@ Example C16_nonvacuous :
   visited [2; 1; 4; 9] 8 = [1; 2; 6].
 Proof. vm_compute. repeat split. Qed.
 Print Assumptions C16_nonvacuous.
+
+(* probability 1: every geometric draw is 1, and the skip sampling visits every index 0 .. count-1
+   exactly once and in order; with the decoder bijections above, every admissible edge is generated
+   exactly once *)
+Theorem C16_probability_one_visits_all : forall count, visited (repeat 1 (S count)) count = seq 0 count.
+Proof. exact visited_all. Qed.
+Print Assumptions C16_probability_one_visits_all.
